@@ -62,7 +62,7 @@ Definition TS (st : wst) (target : option path) (w : world) : Prop :=
 Lemma TS_query : forall st target w w', hx true w w' -> TS st target w -> TS st target w'.
 Proof.
   intros st [t|] w w' H; [|trivial]. intros (A & B & C & D).
-  pose proof H as (F & N & _). unfold TS. rewrite F. unfold pending in *. rewrite N.
+  pose proof H as (_ & F & N & _). unfold TS. rewrite F. unfold pending in *. rewrite N.
   split; [exact A|]. split; [exact B|]. split; [exact C|].
   intros X h E. rewrite (hx_strict_pending w w' t H B) in E. exact (D X h E).
 Qed.
